@@ -1,12 +1,21 @@
 /-
-Semantics functions for `Gen/AlgoShortTip.lean` (Mathlib-free).
+Semantics functions for `Gen/AlgoShortTip.lean` (Mathlib-free): lists of callables.
 -/
 import SwcVerif.Model.Py
 namespace Py
 
 /-- `for cb in callbacks: cb(a)`: every callable of the list, in list order, on the same argument; a callable is a state-passing
-function over the callbacks' common state -/
-def callAll {σ A : Type} (cbs : List (σ → A → σ)) (s : σ) (a : A) : σ :=
-  cbs.foldl (fun s cb => cb s a) s
+function over the callables' common state (`none` = it raised: the loop stops there and the exception propagates) -/
+def callAll {σ A : Type} : List (σ → A → Option σ) → σ → A → Option σ
+  | [], s, _ => some s
+  | cb :: cbs, s, a => (cb s a).bind fun s' => callAll cbs s' a
+
+/-- callables over the state `σ` seen as callables over the state `σ × C` (they do not touch the second component) -/
+def liftCbs {σ C A : Type} (cbs : List (σ → A → Option σ)) : List (σ × C → A → Option (σ × C)) :=
+  cbs.map fun cb s a => (cb s.1 a).map fun s' => (s', s.2)
+
+/-- a closure over its captured variables `C` (state-passing, `none` = it raised) seen as a callable over the state `σ × C` -/
+def closureCb {σ C A R : Type} (f : C → A → Option (C × R)) : σ × C → A → Option (σ × C) :=
+  fun s a => (f s.2 a).map fun r => (s.1, r.1)
 
 end Py
